@@ -270,3 +270,71 @@ _xu0 = units
 def units():
     return _xu0() + [ScenUnit("Fq::square_root == a^((q+1)/4), also in place", ["C02", "C18"], gen_sqrt, targets=["Fq::square_root"], contracts_used=["Fq::multiply / square / copy", "q = 3 mod 4: a^((q+1)/4) is a root of a square (textbook)"]),
                      ScenUnit("Projective::multiply_doubleadd copies the base (out = base allowed)", ["C06", "C18"], gen_doubleadd_wrappers, contracts_used=["multiply_doubleadd_restrict (loop-cut unit)"])]
+
+
+# ---------------------------------------------------------------------------
+# Fq2::square_root: the real body computes the Adj / Rodriguez-Henriquez formula (q = 3 mod 4):
+#   a == 0 -> 0;   a1 = a^((q-3)/4), alpha = a1^2 * a, x0 = a1 * a;   alpha == -1 ? x = u * x0 : x = (1 + alpha)^((q-1)/2) * x0
+# RING back end over an abstract commutative ring with `exponentiate` an uninterpreted power symbol: the returned expression is compared, as a
+# polynomial in a, u and the power symbols, with the formula.  Why the formula is a root of every square a (paper, standard):
+#   alpha = a^((q-1)/2), so alpha^(q+1) = a^((q^2-1)/2) = 1;  x0^2 = alpha * a;  u^2 = -1 gives the first case;
+#   ((1+alpha)^((q-1)/2))^2 = (1+alpha)^q / (1+alpha) = (1 + alpha^-1) / (1 + alpha) = alpha^-1 gives the second.
+def gen_fq2_sqrt(tu):
+    from symx import Leaf
+    f = tu.func("Fq2::square_root")
+    E1, E2 = (Q - 3) // 4, (Q - 1) // 2
+
+    def run(path):
+        d = RingDomain({"Fq2", "Fq", "BigInt<384>"}, consts=U.SHARED.get("consts"))
+        pows = []
+
+        def expo(I_, dd, f_, args):
+            base, k = dd.val(args[1]), dd.val(args[2])
+            pows.append((base, k))
+            args[0].val = dd.sym("pow", base, k)
+        d.free_contracts["exponentiate"] = expo
+        orig_init = d.leaf_from_init
+
+        def leaf_init(I_, t, src):
+            # Fq2 constant = {.c0 = Fq::zero, .c1 = Fq::one}: the element u
+            if t == "Fq2" and isinstance(src, (list, tuple)) and len(src) == 2:
+                vals = [x.val if isinstance(x, Leaf) else x for x in src]
+                if vals[0] in (0, Poly()) and vals[1] in (1, Poly.const(1)):
+                    return Poly.var("u")
+            return orig_init(I_, t, src)
+        d.leaf_from_init = leaf_init
+        I = Interp(tu, d)
+        I.path = path
+        I.scopes = ["Fq2"]
+        this, a = I.new_object("Fq2"), I.new_object("Fq2")
+        a.val = Poly.var("a")
+        I.call(f, this, [a], force_body=True)
+        A = Poly.var("a")
+        dec = [(lab, dd) for (lab, dd) in path.trace if isinstance(lab, tuple) and lab[0] == "is_zero"]
+        out = this.val
+        chk = lambda w, ok, m="": (w, "ok" if ok else "fail", "" if ok else m, None)
+        if dec and dec[0][1] is True and len(dec) == 1 and not pows:
+            return [chk("a == 0: the root returned is a itself (0)", isinstance(out, Poly) and out == A, repr(out))]
+        obs = [chk("first power: a^((q-3)/4)", bool(pows) and pows[0][0] == A and pows[0][1] == E1, repr(pows[:1])[:200])]
+        if not pows:
+            return obs
+        a1 = d.sym("pow", A, E1)
+        alpha = a1 * a1 * A
+        x0 = a1 * A
+        neg1 = [dd for (lab, dd) in dec[1:]]
+        if len(pows) == 1:
+            obs.append(chk("alpha == -1 branch: root == u * a1 * a, decided on alpha + 1 == 0 with alpha = a1^2 * a", out == x0 * Poly.var("u") and len(dec) >= 2 and (dec[-1][0][2] == alpha + 1 or dec[-1][0][2] == -(alpha + 1)) and dec[-1][1] is True, repr(out)[:300]))
+        else:
+            b = d.sym("pow", alpha + 1, E2)
+            obs.append(chk("general branch: second power is (1 + alpha)^((q-1)/2) with alpha = a1^2 * a", pows[1][0] == alpha + 1 and pows[1][1] == E2 and len(pows) == 2, repr(pows[1])[:300]))
+            obs.append(chk("general branch: root == (1 + alpha)^((q-1)/2) * a1 * a", out == b * x0, repr(out)[:300]))
+        return obs
+    yield "Fq2::square_root", guarded(run)
+
+
+_xu1 = units
+
+
+def units():
+    return _xu1() + [ScenUnit("Fq2::square_root computes the Adj / Rodriguez-Henriquez formula (exponents, branch on alpha == -1, factor u)", ["C04", "C02"], gen_fq2_sqrt, targets=["Fq2::square_root"],
+                              contracts_used=["Fq2 ring operations (C04)", "exponentiate == power (C02 loop-cut unit)", "the formula yields a root of every square when q == 3 (mod 4) (paper, in the module text)"])]
